@@ -476,3 +476,27 @@ Proof.
     cbn [negb andb orb]. rewrite orb_false_r. apply name_eqb_neq. intro E. subst new.
     rewrite (tab_find_listed s A tn) in EN; [discriminate | apply amem_alookup; eauto].
 Qed.
+
+(* ------------------------------------------------------------------------------------------ *)
+(** * Index-driven lookups: what the mirror means *)
+
+(** in an agreeing state the entry of an index under a key lists exactly the positions of the rows
+    of its table that carry the key, in ascending order -- nothing stale, nothing missing *)
+Theorem index_entries_exact : forall s k x tb key, Agree s ->
+  alookup k (s_sidx s) = Some x -> alookup (qual public (si_table x)) (s_tabs s) = Some tb ->
+  dget key (si_data x) = matching_positions (t_schema tb) (si_cols x) key (t_rows tb) 0.
+Proof.
+  intros s k x tb key A H1 H2. pose proof (ag_mirror s A k x tb H1 H2) as M.
+  rewrite (build_data_dget _ _ key _ _ _ _ M). reflexivity.
+Qed.
+
+(** every index of an agreeing state has a stored table to be looked up in *)
+Theorem index_has_table : forall s k x, Agree s -> alookup k (s_sidx s) = Some x ->
+  exists sc rows, alookup (si_table x) (s_cat s) = Some sc /\
+                  alookup (qual public (si_table x)) (s_tabs s) = Some (mktab sc rows) /\
+                  forall c, In c (si_cols x) -> In c (col_names sc).
+Proof.
+  intros s k x A H. pose proof (ag_idx_table s A k x H) as L. apply amem_alookup in L. destruct L as [sc L].
+  destruct (listed_table s A _ sc L) as [rows [ET _]]. exists sc, rows. repeat split; auto.
+  intros c Hc. eapply (ag_idx_cols s A); eauto.
+Qed.
